@@ -80,6 +80,29 @@ func checkFenString(s string, mustRoundTrip bool, res *RunResult) {
 				_ = p.IsAttacked(p.KingSquare(c), c.Flip())
 			}
 			res.count("fen_accepted_queried", 1)
+			// generating the legal moves (which makes and takes back moves)
+			// leaves a well-formed position as it was: same FEN, and the
+			// occupancy boards still agree with the piece boards
+			before := p.StringFen()
+			mg := movegen.NewMoveGen()
+			_ = mg.GenerateLegalMoves(p, movegen.GenAll)
+			var all types.Bitboard
+			for _, c := range []types.Color{types.White, types.Black} {
+				var side types.Bitboard
+				for pt := types.King; pt <= types.Queen; pt++ {
+					side |= p.PiecesBb(c, pt)
+				}
+				if side != p.OccupiedBb(c) {
+					res.addViolation("C16", "fen_accepted_position_inconsistent", fmt.Sprintf("%q is accepted; after generating its legal moves the occupancy board of one side differs from its piece boards", clip(s, 200)))
+				}
+				all |= side
+			}
+			if all != p.OccupiedAll() {
+				res.addViolation("C16", "fen_accepted_position_inconsistent", fmt.Sprintf("%q is accepted; after generating its legal moves the occupancy board differs from the piece boards", clip(s, 200)))
+			}
+			if after := p.StringFen(); after != before {
+				res.addViolation("C16", "fen_accepted_position_inconsistent", fmt.Sprintf("%q is accepted; generating its legal moves changes the position from %q to %q", clip(s, 200), before, after))
+			}
 		}()
 	}
 }
